@@ -200,7 +200,7 @@ def handle (toks : List String) : String :=
       | some mc =>
         -- the request object is `cls(header)`: its constructor acts first
         let h0 : Header := { version := v, length := 0, flags := f, code := cd, appId := a, hbh := hb, e2e := ee }
-        let hreq := mc.applyHeader h0
+        let hreq := { mc.applyHeader h0 with flags := f }
         let ha := toAnswerHeader env.msgClasses mc hreq
         s!"{mc.answerClass} {showHeader ha} REQ {showHeader hreq}"
       | none => "BAD"
